@@ -22,14 +22,14 @@ CHECKS = {
          "validate/get/set/reset sequences, and a server context under all get/set/del sequences, against a naive ghost (function "
          "populated address -> value; registered unit -> context); the real datastore classes are driven through the same small blocks "
          "and through real-size blocks around every boundary (0, 1, 65535, 65536) and each operation is validated by TLC.", "4 C18",
-         "TLC model checking of BlocksMC + TLC trace validation (BlocksTrace) of operation sequences on the real classes"),
+         "TLC model checking of BlocksMC + TLC trace validation (BlocksTrace) of operation sequences on the real classes and of the datastore calls recorded while the repository's own tests run"),
  "C01": ("ModbusPDU", "exploration",
          "The PDU layouts of the standard are an executable TLA+ codec (ModbusPDU). TLC (a) proves the codec self-consistent over a boundary "
          "domain of ~12k messages of every class (round trip, 253-byte bound, byte-count rule, exception layout) and exports each as a vector, "
          "(b) computes the standard's PDU for thousands of random messages; the real encoders are compared byte-for-byte and the real "
          "server/client decoders field-by-field, every comparison evaluated by TLC. Exhaustive 16-bit sweeps per field in the thorough tier. "
          "It is exploration with an independent oracle, not a proof over all field combinations.", "4 C01 and 6",
-         "TLC as executable oracle (PduMC/PduGen) + TLC trace validation (PduTrace) of real encode/decode calls"),
+         "TLC as executable oracle (PduMC/PduGen) + TLC trace validation (PduTrace) of real encode/decode calls, driven and recorded from the repository's own tests"),
  "C02": ("ModbusPDU", "model_checking",
          "MsgObjectMC: all encode/decode call histories on one message object (purity, determinism, no accumulation, round trip, fixed "
          "point), deviations rejected; histories of real calls on real objects of every class (PduMC boundary domain + random) are "
@@ -40,7 +40,7 @@ CHECKS = {
          "escaping). buildPacket of real messages of every class is compared byte-for-byte by TLC; the frame TLC builds for (uid, tid, pdu) "
          "is handed whole to a fresh real receiver and must be delivered exactly once with its ids; sweeps over all 256 unit ids, "
          "transaction ids, every data byte value, and computeCRC/computeLRC over arbitrary strings. Reference receivers are model-checked.",
-         "4 C03", "TLC as executable oracle (FramingGen) + TLC trace validation (FramingTrace) + FramingMC"),
+         "4 C03", "TLC as executable oracle (FramingGen) + TLC trace validation (FramingTrace; also of buildPacket calls recorded from the repository's own tests) + FramingMC"),
  "C06": ("Framing", "model_checking",
          "FramingMC: reference TCP/RTU/ASCII receivers under every Feed(k) schedule of streams of pool frames satisfy PrefixOK/Complete; "
          "deviations (reset on incomplete frame, one frame per call) are rejected. The real framers are fed TLC-built streams of 1-3 "
@@ -52,7 +52,7 @@ CHECKS = {
          "every class on RTU/ASCII/binary/TCP, alone or next to valid frames, are fed to the real framers; TLC checks that every delivered "
          "message is justified by a slice of the input that is a well-formed frame under the TLA+ CRC/LRC (Justified). FramingMC proves "
          "the same for the reference receivers under every fault placement and chunking.", "4 C07",
-         "fault enumeration judged by TLC (FramingTrace!Justified) + FramingMC"),
+         "fault enumeration judged by TLC (FramingTrace!Justified; also deliveries recorded from the repository's own tests) + FramingMC"),
  "C11": ("Framing", "model_checking",
          "Safety formulation with ghost offsets: after the last garbage byte plus two maximum-size frames every wholly fed valid frame "
          "must have been delivered (Resync), and the backlog stays bounded. FramingMC checks it for reference RTU/ASCII receivers over "
@@ -63,14 +63,15 @@ CHECKS = {
          "PayloadMC: all sequences of up to 3 typed fields x 4 byte/word-order combinations (layout inverse, conventional image, register "
          "image, pointer arithmetic, decoded = added), deviations rejected; ~40k real payloads (MC sequences concretised, edge values of "
          "every type, random 1-12 field payloads) built and decoded via bytes and via registers, every add/decode validated by TLC.",
-         "4 C19", "TLC model checking (PayloadMC) + TLC trace validation (PayloadTrace)"),
+         "4 C19", "TLC model checking (PayloadMC) + TLC trace validation (PayloadTrace) of driven payloads and of builder/decoder calls recorded from the repository's own tests"),
  "C09": ("Server", "model_checking",
          "ServerMC: two connections, hosted sets {1},{1,2},{0,1}, all flag combinations, requests to units 0..3, whole and split frames "
          "in every interleaving: response goes to the requesting connection with its ids and function code, silence rules for broadcast "
          "and ignored missing units; deviations rejected. The seven real front-ends (threaded TCP/serial/UDP, asyncio TCP/UDP, Twisted "
          "TCP/UDP) are driven in-process with pipelined request histories on every framing they accept; every input event is validated by "
-         "TLC against Server!Serve (one well-formed response frame per request, header and data).", "4 C09",
-         "TLC model checking (ServerMC) + TLC trace validation (ServerTrace strict mode) of 7 front-ends"),
+         "TLC against Server!Serve (one well-formed response frame per request, header and data). Diagnostic / status requests (FC 8, 7, 11, 12) "
+         "interleaved with application calls on the control block are judged against the state machine of Device.tla (9.7).", "4 C09 and 9.7",
+         "TLC model checking (ServerMC, DeviceMC) + TLC trace validation (ServerTrace strict mode, DeviceTrace) of 7 front-ends; ServerGen behaviours replayed"),
  "C10": ("Server", "model_checking",
          "ServerMC action property: only the addressed unit's tables change, a broadcast write reaches every hosted unit exactly once, "
          "missing units change nothing; the real front-ends are driven with unit ids 0..255 (sampled in quick) against hosted sets "
